@@ -4,6 +4,7 @@ package ige
 
 import (
 	"crypto/sha1"
+	"math/big"
 
 	"github.com/xelaj/mtproto/internal/verifrt"
 )
@@ -132,4 +133,82 @@ func H_C05_encrypt(minlen, maxlen int) {
 	verifrt.Assert(verifrt.SameBytes(out, refIGEEncrypt(k, iv, padded)), "encrypt-equals-ige-of-zero-padded")
 	verifrt.Assert(verifrt.SameBytes(msg, m0), "encrypt-input-untouched")
 	verifrt.Assert(verifrt.SameBytes(MessageKey(msg), mk), "message-key")
+}
+
+// ---- key-exchange wrappers (temp keys derived from the two nonces)
+
+// specification (core.telegram.org/mtproto/auth_key), on the fixed-width 32/16 byte encodings of the nonces
+func refTempKeys(newNonce, serverNonce []byte) (key, iv []byte) {
+	h1 := refSha1(cat(newNonce, serverNonce))
+	h2 := refSha1(cat(serverNonce, newNonce))
+	h3 := refSha1(cat(newNonce, newNonce))
+	key = cat(h1, h2[0:12])
+	iv = cat(h2[12:20], h3, newNonce[0:4])
+	return
+}
+
+// H_C05_tempkeys: generateTempKeys equals the specification for every nonce value, leading zero bytes included.
+func H_C05_tempkeys() {
+	nn := verifrt.Bytes(32)
+	sn := verifrt.Bytes(16)
+	var key, iv []byte
+	pn := verifrt.Catch(func() { key, iv = generateTempKeys(new(big.Int).SetBytes(nn), new(big.Int).SetBytes(sn)) })
+	verifrt.Assert(!pn, "tempkeys-no-panic")
+	if pn {
+		return
+	}
+	wk, wi := refTempKeys(nn, sn)
+	verifrt.Observe("key", key)
+	verifrt.Observe("iv", iv)
+	verifrt.Assert(verifrt.SameBytes(key, wk), "tmp-aes-key-as-specified")
+	verifrt.Assert(verifrt.SameBytes(iv, wi), "tmp-aes-iv-as-specified")
+}
+
+// H_C05_tempwrap_self: what the client itself seals (SHA-1 prefix + random padding) it also opens, for every
+// payload length lo..hi; the nonces have no leading zero bytes here (H_C05_tempkeys covers those).
+func H_C05_tempwrap_self(lo, hi int) {
+	n := lo + verifrt.Len(hi-lo)
+	msg := verifrt.Bytes(n)
+	nn := verifrt.Bytes(32)
+	sn := verifrt.Bytes(16)
+	verifrt.Assume(nn[0] != 0)
+	verifrt.Assume(sn[0] != 0)
+	a, b := new(big.Int).SetBytes(nn), new(big.Int).SetBytes(sn)
+	verifrt.AssumeCollisionFree()
+	var ct, back []byte
+	pn := verifrt.Catch(func() { ct = EncryptMessageWithTempKeys(msg, a, b) })
+	verifrt.Assert(!pn, "tempwrap-seal-no-panic")
+	if pn {
+		return
+	}
+	verifrt.Assert(len(ct)%16 == 0 && len(ct) >= 20+n, "tempwrap-sealed-length")
+	verifrt.Assert(len(ct)-20-n < 16, "tempwrap-padding-is-0-to-15-bytes")
+	pn = verifrt.Catch(func() { back = DecryptMessageWithTempKeys(ct, a, b) })
+	verifrt.Assert(!pn, "tempwrap-open-own-no-panic")
+	if pn {
+		return
+	}
+	verifrt.Assert(verifrt.SameBytes(back, msg), "tempwrap-open-own-roundtrip")
+}
+
+// H_C05_tempwrap_peer: a conformant peer seals SHA1(m) ‖ m ‖ pad with 0..15 arbitrary padding bytes (total a
+// multiple of 16) under the specified temp keys; the client recovers m.
+func H_C05_tempwrap_peer(lo, hi int) {
+	n := lo + verifrt.Len(hi-lo)
+	msg := verifrt.Bytes(n)
+	nn := verifrt.Bytes(32)
+	sn := verifrt.Bytes(16)
+	verifrt.Assume(nn[0] != 0)
+	verifrt.Assume(sn[0] != 0)
+	pad := verifrt.Bytes((16 - (20+n)%16) % 16)
+	key, iv := refTempKeys(nn, sn)
+	ct := refIGEEncrypt(key, iv, cat(refSha1(msg), msg, pad))
+	verifrt.AssumeCollisionFree()
+	var back []byte
+	pn := verifrt.Catch(func() { back = DecryptMessageWithTempKeys(ct, new(big.Int).SetBytes(nn), new(big.Int).SetBytes(sn)) })
+	verifrt.Assert(!pn, "tempwrap-open-peer-no-panic")
+	if pn {
+		return
+	}
+	verifrt.Assert(verifrt.SameBytes(back, msg), "tempwrap-open-peer-roundtrip")
 }
